@@ -85,6 +85,11 @@ Round 2 (seeded changes): the weak-reference clause now LOOKS at the entries whi
   (denotation and identity of the held Shape are in the snapshot), a list equal to the shape (must raise
   TypeError), same name/op_type/domain/version/overload; setters are in the oracle's one-entry-per-completed-
   operation table (catches a setter wrapper that skips "no-op" assignments with a concrete replay: C20-r2m1).
+Round 3: the interpreter no longer re-raises an exception on behalf of the `with` statement: if
+  Journal.__exit__ swallows (or changes) the exception thrown inside the block, the journaled run carries on
+  with the statements after the block exactly as Python would, so "which exception reaches the outside" and
+  "which operations ran afterwards" differ from the plain run and are reported with a replay (C20-r3m3:
+  truthy return from __exit__).  The surrogate raised for a propagating library exception has its real type.
 Modelled, not verified: purity of details_func/repr/getattr inside wrappers (exercised by (i) — and
   this is exactly where the finding below was), weakref/traceback/time, determinism of the originals,
   hooks (user callbacks), threads.
